@@ -177,6 +177,7 @@ pub struct RunOutput { pub failed: bool, pub checkpointed: bool, pub x: u8 }
     ensures r matches Ok(p) ==> p.groups == group_views(target_groups@)
 { unimplemented!() }
 // ASSUMED here (run_internal = process_plan, proved in unit runexec): executes the plan
+//!assumed src/app/run.rs run_internal sha=f90095fda50149a0
 #[verifier::external_body] async fn run_internal<'a>(cfg: &'a core::Config, plan: Plan, commands: &'a [&'a String], fail_on_undefined: bool, invocation: &'a str, checkpointed: bool, Tracked(w): Tracked<&mut World>) -> (r: Result<RunOutput, MonorailError>)
     ensures final(w).executed, final(w).ran_groups == plan.groups, r matches Ok(o) ==> o.checkpointed == checkpointed, final(w).cp_file == old(w).cp_file,
         final(w).argmap_log == old(w).argmap_log, final(w).result_stored == old(w).result_stored, final(w).wiped == old(w).wiped, final(w).pointer_saved == old(w).pointer_saved, final(w).recorded_id == old(w).recorded_id,
